@@ -93,10 +93,25 @@ def prep_goto(job, wd):
     base = os.path.join(wd, 'h')
     must(['gcc', '-E', '-P'] + CPPFLAGS + ['-DMYTH_WRAP=' + job.wrap, '-DVERIF_CBMC=1'] + job.defs + [src, '-o', base + '.i'], 'preprocess')
     txt = open(base + '.i').read()
+    for rx, rep in job.cfg.get('text_patches', []):
+        txt, n = re.subn(rx, rep, txt)
+        if n != 1: raise BuildError('front-end: text patch %r matched %d times (source changed shape)' % (rx, n))
+        open(base + '.i', 'w').write(txt)
     if 'myth_tls_tree_node_sz_leaf' in txt:
         txt, n = TLS_ENUM_RE.subn(TLS_ENUM_SUB, txt)
         if n != 1:
             raise BuildError('front-end: myth_tls.h enumerator myth_tls_tree_node_sz_leaf changed shape; goto-cc patch not applicable')
+        # second mechanical patch: the C89 'struct hack' array entries[1] gets its real extent, so that leaf
+        # accesses are in-bounds typed accesses for cbmc (layout of both members' offsets is unchanged)
+        txt, n2 = re.subn(r'myth_tls_entry_t entries\[1\];', 'myth_tls_entry_t entries[myth_tls_tree_node_n_entries_in_leaf];', txt)
+        if n2 != 1:
+            raise BuildError('front-end: myth_tls.h struct myth_tls_tree_node changed shape; struct-hack patch not applicable')
+        # third mechanical patch: the anonymous union {children[], entries[]} becomes an anonymous struct (separate storage).
+        # The code never puns between the two views (a node is internal or leaf, checked by its type tag); cbmc's
+        # widest-member representation of the union made every children[] access a byte-level update of entries[].
+        txt, n3 = re.subn(r'union \{(\s*struct myth_tls_tree_node \* children)', r'struct {\1', txt)
+        if n3 != 1:
+            raise BuildError('front-end: myth_tls.h struct myth_tls_tree_node changed shape; union patch not applicable')
         open(base + '.i', 'w').write(txt)
     must(['goto-cc', base + '.i', '-o', base + '.gb'], 'goto-cc')
     cur = base + '.gb'
@@ -122,7 +137,16 @@ def prep_irseq(job, wd):
     cc = 'clang++-14' if job.lang == 'c++' else 'clang-14'
     flags = ['-O0', '-Xclang', '-disable-O0-optnone', '-S', '-emit-llvm', '-fno-discard-value-names']
     if job.lang == 'c++': flags += ['-std=c++11', '-fno-exceptions', '-fno-rtti'] + job.cxxflags
-    must([cc] + flags + CPPFLAGS + ['-DMYTH_WRAP=' + job.wrap] + job.defs + [src, '-o', base + '.0.ll'], 'clang')
+    if job.cfg.get('text_patches'):
+        must([cc, '-E', '-P'] + (['-std=c++11'] if job.lang == 'c++' else []) + CPPFLAGS + ['-DMYTH_WRAP=' + job.wrap] + job.defs + [src, '-o', base + '.pp.c'], 'clang -E')
+        txt = open(base + '.pp.c').read()
+        for rx, rep in job.cfg['text_patches']:
+            txt, n = re.subn(rx, rep, txt)
+            if n != 1: raise BuildError('front-end: text patch %r matched %d times (source changed shape)' % (rx, n))
+        open(base + '.pp.c', 'w').write(txt)
+        must([cc] + flags + ['-Wno-everything', base + '.pp.c', '-o', base + '.0.ll'], 'clang')
+    else:
+        must([cc] + flags + CPPFLAGS + ['-DMYTH_WRAP=' + job.wrap] + job.defs + [src, '-o', base + '.0.ll'], 'clang')
     ll0 = open(base + '.0.ll').read()
     funcs = defined_functions(ll0)
     cur = base + '.0.ll'
@@ -176,7 +200,7 @@ def nd_from_trace(trace):
             vals.append(d)
     return vals
 
-def run_cbmc(job, target, wd, res, extra=()):
+def run_cbmc(job, target, wd, res, extra=(), extra_props=None):
     if os.environ.get('VERIF_BUILD_ONLY'):
         res.status = 'built'; return
     flags = ['--json-ui', '--trace', '--no-malloc-may-fail', '--drop-unused-functions', '--unwinding-assertions']
@@ -208,6 +232,21 @@ def run_cbmc(job, target, wd, res, extra=()):
         if mm: res.vars = max(res.vars, int(mm.group(1))); res.clauses = max(res.clauses, int(mm.group(2)))
         mm = re.search(r'Runtime (?:decision procedure|Solver): ([0-9.]+)s', m)
         if mm: res.solver_s += float(mm.group(1))
+    unk = [r.get('property') for r in results if r.get('status') not in ('SUCCESS', 'FAILURE')]
+    if unk and not extra_props:
+        # cbmc leaves properties UNKNOWN in multi-property mode once other properties have failed: decide them on their own
+        sub = JobResult(job)
+        run_cbmc(job, target, wd, sub, extra=list(extra) + sum([['--property', p] for p in unk], []), extra_props=unk)
+        res.wall_s += sub.wall_s; res.solver_s += sub.solver_s
+        if sub.status in ('undecided', 'error') and not sub.violations:
+            res.status = sub.status; res.detail = 'properties left UNKNOWN by cbmc could not be decided separately: ' + sub.detail; return
+        bypid = {r.get('property'): r for r in sub.extra.get('_raw', [])}
+        results = [bypid.get(r.get('property'), r) if r.get('property') in unk else r for r in results]
+        still = [r.get('property') for r in results if r.get('status') not in ('SUCCESS', 'FAILURE')]
+        if still:
+            res.status = 'undecided'; res.detail = 'cbmc status UNKNOWN for ' + ', '.join(still[:5]); return
+    if extra_props:
+        res.extra['_raw'] = results
     res.n_props = len(results)
     nobody = set()
     for m in msgs:
@@ -239,7 +278,7 @@ def run_cbmc(job, target, wd, res, extra=()):
         res.status = 'violated'
     elif res.unwind_fail:
         res.status = 'undecided'; res.detail = 'unwinding bound too small: ' + '; '.join(res.unwind_fail[:3])
-    elif not job.nowitness and not (witness_seen and res.witness):
+    elif not job.nowitness and not extra_props and not (witness_seen and res.witness):
         res.status = 'vacuous'; res.detail = 'WITNESS assertion %s' % ('unreachable (harness over-constrained)' if witness_seen else 'missing from the query')
     else:
         res.status = 'holds'
@@ -332,7 +371,7 @@ def native_replay(res, v):
     if job.engine == 'A':
         src = os.path.join(VERIF, job.src)
         exe = os.path.join(wd, 'replay_' + re.sub(r'\W', '_', v['prop']))
-        cmd = ['gcc', '-O0', '-w', '-DVERIF_NATIVE=1', '-include', os.path.join(VERIF, 'model', 'native_shim.h')] + CPPFLAGS + ['-DMYTH_WRAP=' + job.wrap] + job.defs + [src, '-o', exe, '-lpthread', '-ldl']
+        cmd = ['gcc', '-O1', '-fno-strict-aliasing', '-w', '-DVERIF_NATIVE=1', '-include', os.path.join(VERIF, 'model', 'native_shim.h')] + CPPFLAGS + ['-DMYTH_WRAP=' + job.wrap] + job.defs + [src, '-o', exe, '-lpthread', '-ldl']
         rc, out, err, _, _ = run(cmd, timeout=120)
         if rc != 0: return dict(ok=None, why='native compile failed: ' + err[-400:])
         rc, out, err, _, _ = run([exe], timeout=60, env=dict(os.environ, VERIF_ND_FILE=vals))
